@@ -69,8 +69,69 @@ fn main() {
                 }
             }
         }
+        "swap" => native_swap(&x),
         "estimate_max_liquidity" => res(estimate_max_liquidity_from_token_amounts(u(x[0]), x[1].parse::<i32>().unwrap(), x[2].parse::<i32>().unwrap(), u(x[3]) as u64, u(x[4]) as u64)),
         _ => "UnknownFunction".to_string(),
     });
     match out { Ok(s) => println!("{}", s), Err(_) => println!("Panic") }
+}
+
+
+/// swap <sqrt_price> <tick_current> <liquidity> <tick_spacing> <fee_rate> <protocol_fee_rate> <fgg_a> <fgg_b>
+///      <amount> <limit> <exact_in> <a_to_b> <timestamp> [tick:net ...]
+/// Builds three FixedTickArrays in trade direction (first = array holding the, possibly shifted, current tick), initialises the
+/// listed ticks (liquidity_net = net, gross = |net|) and runs the REAL swap_manager::swap with the static fee manager.
+fn native_swap(x: &[&str]) -> String {
+    use std::cell::RefCell;
+    use ::whirlpool::state::*;
+    let i = |s: &str| s.parse::<i128>().expect("int arg");
+    let mut wp = Whirlpool::default();
+    wp.sqrt_price = u(x[0]);
+    wp.tick_current_index = i(x[1]) as i32;
+    wp.liquidity = u(x[2]);
+    wp.tick_spacing = u(x[3]) as u16;
+    wp.fee_rate = u(x[4]) as u16;
+    wp.protocol_fee_rate = u(x[5]) as u16;
+    wp.fee_growth_global_a = u(x[6]);
+    wp.fee_growth_global_b = u(x[7]);
+    let amount = u(x[8]) as u64;
+    let limit = u(x[9]);
+    let exact_in = b(x[10]);
+    let a_to_b = b(x[11]);
+    let ts = u(x[12]) as u64;
+    let span = TICK_ARRAY_SIZE * wp.tick_spacing as i32;
+    let fl = |t: i32| -> i32 { let q = t.div_euclid(span); q * span };
+    let mut first = fl(wp.tick_current_index);
+    if !a_to_b {
+        // b_to_a search is exclusive: if the current tick is the last slot of its array the sequence starts with the next array
+        let shifted = wp.tick_current_index + wp.tick_spacing as i32;
+        first = fl(shifted);
+    }
+    let starts: Vec<i32> = (0..3).map(|k| if a_to_b { first - k * span } else { first + k * span }).collect();
+    let cells: Vec<RefCell<FixedTickArray>> = starts.iter().map(|s| { let mut a = FixedTickArray::default(); a.start_tick_index = *s; RefCell::new(a) }).collect();
+    for spec in &x[13..] {
+        let mut it = spec.split(':');
+        let t = it.next().unwrap().parse::<i32>().unwrap();
+        let net = it.next().unwrap().parse::<i128>().unwrap();
+        for (k, s) in starts.iter().enumerate() {
+            if t >= *s && t < *s + span {
+                let upd = TickUpdate { initialized: true, liquidity_net: net, liquidity_gross: net.unsigned_abs().max(1),
+                    fee_growth_outside_a: 0, fee_growth_outside_b: 0, reward_growths_outside: [0, 0, 0] };
+                let _ = cells[k].borrow_mut().update_tick(t, wp.tick_spacing, &upd);
+            }
+        }
+    }
+    let valid: Vec<bool> = starts.iter().map(|s| Tick::check_is_valid_start_tick(*s, wp.tick_spacing)).collect();
+    if !valid[0] { return "Unrealizable".to_string(); }
+    let mk = |k: usize| -> LoadedTickArrayMut { std::cell::RefMut::map(cells[k].borrow_mut(), |t| t as &mut dyn TickArrayType) };
+    let ta0 = mk(0);
+    let ta1 = if valid[1] { Some(mk(1)) } else { None };
+    let ta2 = if valid[1] && valid[2] { Some(mk(2)) } else { None };
+    let mut seq = ::whirlpool::util::SwapTickSequence::new(ta0, ta1, ta2);
+    let r = ::whirlpool::manager::swap_manager::swap(&wp, &mut seq, amount, limit, exact_in, a_to_b, ts, &None);
+    match r {
+        Ok(p) => format!("Ok {} {} {} {} {} {} {} {}", p.amount_a, p.amount_b, p.lp_fee, p.next_liquidity, p.next_tick_index, p.next_sqrt_price,
+                         p.next_fee_growth_global, p.next_protocol_fee),
+        Err(e) => { let s = format!("{:?}", e); let c = s.find("error_name: \"").map(|i| { let r = &s[i + 13..]; r[..r.find('"').unwrap_or(0)].to_string() }).unwrap_or_else(|| "Other".to_string()); format!("Err:{}", c) }
+    }
 }
